@@ -89,8 +89,9 @@ def run(cx):
         # locks, channels) would be an unwatched wait during which the caller can walk away unnoticed.
         WATCHED = (f"{WIRE}::read_request", f"{WIRE}::write_response", "quinn::send_stream::SendStream::stopped")
         n_y = 0
+        live_ = co.reachable_from(0)
         for yb, bl in enumerate(co.blocks):
-            if bl.get("cleanup") or bl["t"]["k"] != "yield":
+            if bl.get("cleanup") or bl["t"]["k"] != "yield" or yb not in live_:
                 continue
             n_y += 1
             seen_, fr, found = set(), [yb], None
@@ -141,12 +142,21 @@ def run(cx):
         ob.require(len(arm) == 1, "race/stopped-arm", f"no arm for select branch _{idx_stop}: {labels}", co.path)
         if arm:
             wr = co.calls_to(f"{WIRE}::write_response")
-            region = co.reachable_from(arm[0], succ=co.succ_noawait)
-            ob.require(wr and wr[0].bb not in region, "race/stopped-arm-no-response", "the stopped arm can still reach write_response", co.path)
-            rets = [i for i in region if co.blocks[i]["t"]["k"] == "return"]
-            errs = [i for i in region for s in co.blocks[i]["s"] if s["k"] == "assign" and s["lhs"] == 0 and s["rv"]["k"] == "agg" and s["rv"].get("variant") == "Err"]
-            oks = [i for i in region for s in co.blocks[i]["s"] if s["k"] == "assign" and s["lhs"] == 0 and s["rv"]["k"] == "agg" and s["rv"].get("variant") == "Ok"]
-            ob.require(bool(rets) and bool(errs) and not oks, "race/stopped-arm-returns-err", "the stopped arm does not return Err", co.path)
+            # feasible paths from the stopped arm (an `Err` built in the arm and propagated with `?` cannot take the
+            # Continue edge): none writes a response, all return Err
+            def arm_call(c, o_):
+                return "write_response" if name_matches(c.fn, f"{WIRE}::write_response") else None
+
+            def arm_stmt(bb_, s_, o_):
+                if s_["lhs"] == 0 and s_["rv"]["k"] == "agg" and s_["rv"].get("variant") in ("Ok", "Err"):
+                    return "ret=" + s_["rv"]["variant"]
+                return None
+            aws = {fmt_word(w) for w in words_of(co, arm_call, None, arm_stmt, start=arm[0], drop_suspend=False)}
+            ob.count(len(aws))
+            ob.require(bool(wr) and not any("write_response" in w.split() for w in aws), "race/stopped-arm-no-response", f"the stopped arm can still reach write_response: {sorted(aws)[:3]}", co.path)
+            ob.require(bool(aws) and all(w.endswith("<return>") and ("ret=Err" in w.split() or "!err" in w.split()) and "ret=Ok" not in w.split() for w in aws),
+                       "race/stopped-arm-returns-err", f"the stopped arm does not return Err: {sorted(aws)[:3]}", co.path)
+            ob.set_sample({"stopped_arm_words": sorted(aws)})
         # the service future is a coroutine local (dropped when the coroutine returns): it is not spawned / boxed away
         ob.require(not [c for c in co.calls() if name_matches(c.fn, ("tokio::task::spawn::spawn", "JoinSet::spawn"))], "race/handler-not-spawned", "do_handle spawns the service future", co.path)
 
